@@ -251,6 +251,10 @@ fn compile<E: Entry>(
         let mut ast = ast.clone();
 
         // reduced set of passes because only compile-time stuff is possible
+        //
+        // (mission.msg has no instruction language, but any register syntax that appears in a field
+        //  still needs to have *a* language so that the later passes can report it as an error)
+        crate::passes::resolution::assign_languages(&mut ast, crate::game::LanguageKey::Dummy, ctx)?;
         crate::passes::resolution::resolve_names(&ast, ctx)?;
         crate::passes::type_check::run(&ast, ctx)?;
         crate::passes::evaluate_const_vars::run(ctx)?;
